@@ -453,6 +453,11 @@ def run(ctx, chk):
     chk.rule("C01.slot-reads", "every loop that reads the slot table of a container (copy, describe, size, serialize, release) is bounded "
              "by the element count, never by the capacity: slots beyond the count hold whatever the allocator returned")
     _r1.check_slot_reads_below_count(chk, "C01.slot-reads", prog, eff)
+    chk.rule("C01.push-atomic", "the decoding stack's push either links a record and counts it or refuses and leaves the stack as it was: no field of the "
+             "stack header is written on a path of _cbor_stack_push that returns NULL (a refused record allocation must not be counted - "
+             "cbor_load unwinds `size` records), and a successful push makes the returned record the top and the depth one larger")
+    import rules as _rpa
+    _rpa.check_push_atomic(chk, "C01.push-atomic", prog, eff)
     chk.rule("C01.narrowing", "no 64-bit quantity is converted to a narrower integer type except to take one byte of it or below a range "
              "test that makes the conversion lossless: a declared count kept in 32 bits closes its container after count mod 2^32 members "
              "and hands a partially built item to the caller (shared with C02.narrowing)")
